@@ -129,14 +129,23 @@ def step (w : World α) (s : St α) : Op α → St α × Out α
       if Num.lt hi lo then (s, .rejected)
       else ({ s with range := some (lo, hi), cMean := none, cMode := none, cCustom := none }, .ok)
   | .useMode c =>
-    let s := { ensure s with strategy := .mode }
+    -- the confidence is validated and stored FIRST (`if confidence: self.confidence = …`), the
+    -- strategy is switched afterwards: a rejected level leaves everything as it was
+    let s := ensure s
     match c with
-    | none => (s, .ok)
-    | some c => if Num.isZero c then (s, .ok) else setConf' s c   -- `if confidence:`
+    | none => ({ s with strategy := .mode }, .ok)
+    | some c =>
+      if Num.isZero c then ({ s with strategy := .mode }, .ok)   -- `if confidence:`
+      else
+        match setConf' s c with
+        | (s', .ok) => ({ s' with strategy := .mode }, .ok)
+        | r => r
   | .useMean => ({ ensure s with strategy := .meanStd }, .ok)
   | .useCustom v e =>
-    let s := { ensure s with strategy := .custom }
-    if Gen.mcCustomBad e then (s, .rejected) else ({ s with cCustom := some (v, e) }, .ok)
+    -- validated first; the strategy is switched only together with storing the pair
+    let s := ensure s
+    if Gen.mcCustomBad e then (s, .rejected)
+    else ({ s with strategy := .custom, cCustom := some (v, e) }, .ok)
   | .read => evaluate w s
   | .samples =>
     let s := ensure s
